@@ -1,10 +1,13 @@
 #!/bin/bash
 # sweep.sh <tier> <seed...> — run every registered check at the given seeds, one line per run
+ROOT="$(cd "$(dirname "${BASH_SOURCE[0]}")/.." && pwd)"
 TIER="$1"; shift
+IDS="${SWEEP_IDS:-$(python3 -c "import json;print(' '.join(c['property_id'] for c in json.load(open('$ROOT/MANIFEST.json'))['checks']))")}"
 for seed in "$@"; do
-  for id in $(python3 -c "import json;print(' '.join(c['property_id'] for c in json.load(open('/verif/MANIFEST.json'))['checks']))"); do
-    out=$(VERIF_SEED=$seed /verif/run_check.sh $id $TIER 2>&1); rc=$?
-    echo "seed=$seed $id rc=$rc $(echo "$out" | grep SUMMARY | sed 's/SUMMARY property=[A-Z0-9]* //')"
+  for id in $IDS; do
+    t0=$(date +%s)
+    out=$(VERIF_SEED=$seed "$ROOT/run_check.sh" $id $TIER 2>&1); rc=$?
+    echo "seed=$seed $id rc=$rc total=$(( $(date +%s) - t0 ))s $(echo "$out" | grep SUMMARY | sed 's/SUMMARY property=[A-Z0-9]* //')"
     if [ $rc -ne 0 ]; then echo "$out" | grep -E "VIOLATION|class=|INCONCLUSIVE" | cut -c1-400 | head -6; fi
   done
 done
